@@ -2767,14 +2767,20 @@ def oracle_ledger(case):
                 if nm in GSF_STATE:
                     continue
                 for t in _flat(base[nm][0]):
-                    if isinstance(t, np.ndarray) and t.flags.writeable and t.ndim:
-                        t[...] = -7.5
+                    if isinstance(t, np.ndarray) and t.flags.writeable and t.ndim and t.size:
+                        # (values of the array's own magnitude: should the array be a view of something the surface or the
+                        # caller still uses, the numbers stay in a range that GammaSurface can wrap in finite time)
+                        t[...] = -0.75 * t[::-1] - 0.25 * float(np.abs(t).max())
+            # an array the surface returned must not be a view of an array the caller handed in
+            for k, t in Q.items():
+                require(np.array_equal(t, Q0[k]), lambda: 'after %s: overwriting the arrays that the surface had RETURNED changed the caller\'s '
+                        'query array %s: a returned array is a view of an input' % (what, k))
             base = {nm: (_fresh(v[1]) if nm not in GSF_STATE else v[0], v[1]) for nm, v in base.items()}
             ledger = [(tag, nm, _fresh(cop), cop) if tag == 'first reading' else (tag, nm, raw, cop) for (tag, nm, raw, cop) in ledger]
             what += ': the caller overwrote the arrays the surface had returned'
         elif kind == 'overwrite_query':
             for k, t in Q.items():
-                t[...] = op['f'] * t[::-1] + 0.125
+                t[...] = op['f'] * t[::-1] + 0.125 * float(np.abs(t).max())
             ledger_intact(ledger, 'after ' + what + ': the caller overwrote the query arrays it had handed to the surface')
             for k, t in Q.items():
                 t[...] = Q0[k]
